@@ -601,6 +601,23 @@ class Sim(object):
         return c
 
 
+def gen_deep_queue(rng, variant, depth):
+    """`depth` requests outstanding at once on one connection (far more than any ordinary master keeps in flight), then all
+    their replies in order (dict variant: in a shuffled order), then the connection is lost with a few still pending"""
+    s = Sim(variant, 1)
+    s.push(['made'])
+    for _ in range(depth):
+        s.push(['exec', None])
+    tids = list(s.out.values())
+    if variant == 'dict':
+        rng.shuffle(tids)
+    keep = rng.choice([0, 3])
+    for t in tids[:len(tids) - keep]:
+        s.push(['reply', t if variant == 'dict' else s.real.unit, rng.randrange(65536)])
+    s.push(['lost'])
+    return s.case('deep-queue')
+
+
 def pick_unit(rng):
     return rng.choice([1, 1, 2, 17, 247, 0, 255])
 
@@ -1105,6 +1122,8 @@ def run(ctx):
     for variant in ('dict', 'fifo'):
         batch = [gen_pipeline(rng, variant, n) for n in ctx.scale((6, 8, 12, 12), (6, 12, 40, 100, 300, 300)) for _ in range(ctx.scale(4, 6))]
         check_cases(ctx, rep, batch)
+    # hundreds of requests in flight on one connection (a bounded queue or table would drop the oldest)
+    check_cases(ctx, rep, [gen_deep_queue(rng, v, d) for v in ('dict', 'fifo') for d in (257, 300 if ctx.quick else 1100)])
     # random histories + loss at every point
     rounds = ctx.scale(90, 2500)
     for i in range(rounds):
